@@ -156,7 +156,7 @@ def judge (force : Nat) (st : St) (method path : Bytes) (hs : List (Bytes × Byt
       let etag0 := (valuesCI c.headers b!"etag").headD []
       let is304 := c.cond && etag0 ≠ [] && o.contactINM.any (· == etag0)
       -- "a 304 … updates its headers while keeping the body": the entry's Cache-Control is the 304's from now on
-      let cEff : Origin := if is304 ∧ c.cc304 ≠ [] then
+      let cEff : Origin := if is304 ∧ c.cc304 ≠ [] ∧ c.cc304 ≠ b!"-" then
           { c with headers := c.headers.filter (fun kv => toLower kv.1 != b!"cache-control") ++ [(b!"Cache-Control", c.cc304)] } else c
       let servedStale := c.status ≥ 400 && o.body ≠ [] && o.body != c.body &&
         (st.all.filter (·.path == path)).any (fun s => s.body == o.body && ((Model.getCacheControlDirectives (hdrOf s.headers)).staleIfError).isSome)
